@@ -5,6 +5,7 @@
 (* are opaque strings here (u64 values do not fit TLC's integers); the model    *)
 (* store is a set of entries [ks, id, ts, tomb, dig].                           *)
 (*   put / multi_put / mark / mark_many / remove_tombstones : update the model  *)
+(*   put_failed : a refused bulk write leaves exactly the reported documents    *)
 (*   get / multi_get / meta / list : results must equal the model's prediction  *)
 (*   reopen : nothing changes      reset : a fresh backend instance             *)
 EXTENDS Naturals, Sequences, FiniteSets, TLC, Json, IOUtils
@@ -32,6 +33,9 @@ Step(e) ==
   CASE e.ev = "reset"  -> store' = {} /\ named' = {}
     [] e.ev = "reopen" -> UNCHANGED <<store, named>>
     [] e.ev = "put"    -> store' = Upsert(store, e.ks, e.docs, FALSE) /\ named' = named \cup {e.ks}
+    \* a bulk write the backend refused: exactly the documents it reports as written are in place
+    [] e.ev = "put_failed" -> store' = Upsert(store, e.ks, SelectSeq(e.docs, LAMBDA d : d.id \in SetOf(e.done)), FALSE)
+                              /\ named' = named \cup {e.ks}
     [] e.ev = "mark"   -> store' = Upsert(store, e.ks, e.docs, TRUE) /\ named' = named \cup {e.ks}
     [] e.ev = "remove_tombstones" ->
           /\ \A i \in SetOf(e.ids) : ~(\E x \in Live(e.ks) : x.id = i)      \* the recorder stays inside the contract
